@@ -595,14 +595,18 @@ def finish(total, tier, seed):
 
 MANIFEST = dict(
     text="Bounded exhaustive enumeration of DIP texts on the real parser against a reference interpretation of the "
-         "generating AST: every ordered tree of <= 5 lines (6 thorough; 6/7 for group+definition lines only) and depth "
-         "<= 4 of groups, typed definitions and dotted names with rotating value forms; every assignment of 1/2/4 "
-         "blanks per parent; every way of adding <= 2 blank lines / comment lines / trailing comments to small trees; "
-         "~400 literal forms (all type spellings, number notations, strings, none, inline / quoted / block arrays) and "
-         "~460 tables at three hierarchy positions. Coverage statement: paths, order, type, precision, sign, unit and "
-         "value equal what was written for every program in these bounds.",
+         "generating AST: every ordered tree of depth <= 4 with <= 4 lines (thorough 5) over groups, dotted groups, typed "
+         "definitions and dotted names (own prefix / prefix of the preceding sibling), <= 5 (6) lines without dotted "
+         "groups, <= 6 (7) lines of plain groups and definitions, with value forms rotating over bool/int/float/str, "
+         "quoting and units; every assignment of 1/2/4 blanks to the children of each parent for trees of <= 5 (6) "
+         "lines; every way of adding <= 2 decorations (blank line, line of blanks, comment line at 3 indentations, "
+         "trailing comment with 4 texts) to trees of <= 2 (3) lines and 1 decoration up to 4 (5) lines; 273 literal "
+         "forms (all type spellings, number notations, strings, none, inline / quoted / block arrays with 5 dimension "
+         "notations) and 468 tables at root, below a group and behind a dotted name (quick ~1.1e5 programs, thorough "
+         "~1.7e6). Coverage statement: paths, order, type, precision, sign, unit and value equal what was written for "
+         "every program in these bounds.",
     note="Reference never parses text (interprets the AST); a per-case self-check ties the AST to the statement's "
-         "indentation rule. Not covered: tabs, escapes, single-quoted JSON, indented block content, deeper or longer "
-         "programs (small-scope hypothesis).",
+         "indentation rule. Not covered: tabs, escapes, single-quoted JSON, indented block content, nodes below a "
+         "table, deeper or longer programs (small-scope hypothesis).",
     technique="bounded grammar enumeration, reference interpreter over the generator AST, differential over layouts",
 )
